@@ -227,14 +227,14 @@ impl Ctx {
 fn phase_baseline(ctx: &mut Ctx, sparse: bool) {
     let mut rejected: Vec<String> = Vec::new();
     for si in 0..ctx.corpus.seeds.len() {
-        if !ctx.mine() || (sparse && si % 16 != 0) {
+        if !ctx.mine() || (sparse && (si % 16 != 0 || ctx.corpus.seeds[si].bytes.len() > 200)) {
             continue;
         }
         if !ctx.rep.in_budget() {
             break;
         }
         let s = ctx.corpus.seeds[si].clone();
-        let frags = ctx.frags_for(s.bytes.len(), true);
+        let frags = ctx.frags_for(s.bytes.len(), !sparse);
         let oname = s.name.clone();
         let origin = move || format!("seed {} (unmutated)", oname);
         match s.proto {
@@ -973,13 +973,23 @@ fn main() {
     rep.extra("rule", Json::s(rule));
     rep.extra("profile", Json::s(profile()));
 
+    let verbose = params.flag("verbose");
+    let t0 = std::time::Instant::now();
+    let lap = |what: &str| {
+        if verbose {
+            eprintln!("[C03] {:>8.1}s {}", t0.elapsed().as_secs_f64(), what);
+        }
+    };
     let corpus = seeds::build_corpus();
+    lap("corpus built");
     let layouts: Vec<Layout> = corpus
         .seeds
         .iter()
         .map(|s| if s.proto == Proto::Bgp { mutate::dissect(&s.bytes) } else { Layout::default() })
         .collect();
+    lap("layouts");
     let codecs: Vec<PeerCodec> = corpus.specs.iter().map(|s| s.build()).collect();
+    lap("codecs");
     let shard_idx = params.shard.rsplit('-').next().and_then(|s| s.parse::<u64>().ok()).unwrap_or(0);
     let nshards = params.get_u64("nshards", 1).max(1);
     rep.max("codecs", corpus.specs.len() as u64);
@@ -1047,29 +1057,38 @@ fn main() {
     let tiny = params.scale < 0.01;
     let thorough = params.thorough();
     phase_baseline(&mut ctx, tiny);
+    lap("baseline");
+    // tiny scale (Miri, ~1 s per evaluation): explicit small counts
+    let tiny_n = |base: f64| ((params.scale * base).ceil() as u64).max(1);
     if has("bgp-systematic") {
         // thorough (scale 1): the whole space.  quick: length fields / truncation / attribute surgery
-        // complete, wide value sweeps sampled.  tiny scale (Miri): a seeded sample of indices.
+        // complete, wide value sweeps sampled.  tiny scale: a seeded sample of indices.
         if tiny {
-            phase_bgp_systematic(&mut ctx, 1.0, Some(params.n(1_000_000, 4_000_000)));
+            phase_bgp_systematic(&mut ctx, 1.0, Some(tiny_n(4_000_000.0)));
         } else {
             let rate = if thorough { 1.0 } else { 0.1 } * params.scale.min(1.0);
             phase_bgp_systematic(&mut ctx, rate, None);
         }
     }
+    lap("systematic");
     if has("bgp-random") {
-        let per_shard = params.n(200_000, 40_000_000) / nshards;
+        let per_shard = if tiny { tiny_n(2_000_000.0) / nshards } else { params.n(200_000, 40_000_000) / nshards };
         phase_bgp_random(&mut ctx, per_shard.max(1));
     }
+    lap("random");
     // RTR / BFD systematic spaces are small: visited completely unless scaled down
     let (num, den) = if params.scale >= 1.0 { (1, 1) } else { (((params.scale * 1000.0).ceil() as u64).max(1), 1000) };
     if has("rtr") {
-        phase_rtr(&mut ctx, num, den, params.n(40_000, 4_000_000) / nshards);
+        let n = if tiny { tiny_n(1_000_000.0) / nshards } else { params.n(40_000, 4_000_000) / nshards };
+        phase_rtr(&mut ctx, num, den, n.max(1));
     }
     if has("bfd") {
-        phase_bfd(&mut ctx, num, den, params.n(20_000, 2_000_000) / nshards);
+        let n = if tiny { tiny_n(1_000_000.0) / nshards } else { params.n(20_000, 2_000_000) / nshards };
+        phase_bfd(&mut ctx, num, den, n.max(1));
     }
+    lap("rtr+bfd");
     finalize(&mut ctx);
+    lap("finalize");
     if ctx.rep.evaluations < 50 && params.scale >= 1.0 {
         ctx.rep.inconclusive("fewer than 50 evaluations");
     }
